@@ -31,9 +31,9 @@ CHECKS = {
     "C04": seq(["TestC04Clock", "TestC04Bucket", "TestC04Reopen", "TestC04Race", "TestC04Expiry"], per_test={"TestC04Race": (4, 120, 16, 3000), "TestC04Expiry": (2, 300, 8, 6000), "TestC04Clock": (2, 3000, 8, 200000), "TestC04Reopen": (4, 40, 16, 1500)}),
     "C05": seq(["TestC05"]),
     "C06": seq(["TestC06"]),
-    "C07": seq(["TestC07"], fuzz={"FuzzC07Xattr": 240}),
+    "C07": seq(["TestC07", "TestC07Race"], fuzz={"FuzzC07Xattr": 240}, per_test={"TestC07Race": (4, 150, 16, 3000)}),
     "C08": seq(["TestC08Seq", "TestC08Order", "TestC08Race"], per_test={"TestC08Order": SCRIPT, "TestC08Race": (4, 120, 16, 3000)}),
-    "C09": seq(["TestC09Seq", "TestC09Gap"], per_test={"TestC09Gap": SCRIPT}),
+    "C09": seq(["TestC09Seq", "TestC09Gap", "TestC09Bulk"], per_test={"TestC09Gap": SCRIPT, "TestC09Bulk": (4, 40, 16, 800)}),
     "C10": seq(["TestC10", "TestC10Expiry"], qchecks=40, tchecks=150, level="fault_enumeration", per_test={"TestC10Expiry": (2, 2, 8, 12)}),
     "C11": seq(["TestC11"], qchecks=150, tchecks=1500),
     "C12": seq(["TestC12"], qchecks=200, tchecks=1200),
